@@ -285,3 +285,24 @@ Example ex_rec_and_ok : map v_ok (rec_block prog_and_ok) = [true].
 Proof. vm_compute. reflexivity. Qed.
 Example ex_rec_and_bad : map v_ok (rec_block prog_and_bad) = [false].
 Proof. vm_compute. reflexivity. Qed.
+
+(* ---------- for ALL queries of the fragment (Model/FragTranslate.v, text-identical to the implementation) ---------- *)
+(* A First column: for every collection, every chain of Where predicates, every body, every event and member
+   state - with predicates and body defined on the elements - the emitted job throws exactly when NO element
+   passes the filters, and otherwise writes the body's value on the FIRST passing element: no default, no stale
+   value, no dropped row.  (Rows with several columns, event filters and whole jobs: C01_fragment_row,
+   C01_query_job, whose reference semantics gives FThrow for an empty First.) *)
+From FV Require Import Model.FragTranslate Proofs.FragProofs.
+Theorem C04_fragment_first_faults_iff_empty :
+  forall (bk : FragTranslate.backend) (name : string) (cr : collref) (ps : list pred) (body : pa) (line : string)
+         (n0 : nat) (ev : event) (ms : frame) (f : value -> bool) (g : value -> value) (l : list value),
+  let r := [(name, ColFirst cr ps body line)] in
+  base_ok (c_base cr) = true -> members_init r (n0 + row_size r) 0 ms ->
+  assoc_ss (c_ctype cr, c_bank cr) (ev_colls ev) = Some (VVec l) ->
+  passes_total ev ps l f -> (forall v, In v l -> f v = true -> dpa ev v body = ROk (g v)) ->
+  match filter f l with
+  | [] => run_event (prog_row bk r n0) ms ev = RFault FThrow
+  | v :: _ => exists ms', run_event (prog_row bk r n0) ms ev = ROk ([[conv (pa_type body) (g v)]], ms')
+  end.
+Proof. exact frag_first_faults_iff_empty. Qed.
+Print Assumptions C04_fragment_first_faults_iff_empty.
